@@ -756,11 +756,12 @@ Definition reconcile : graph -> graph := reconcile_with reconcile_parts.
 Definition labels_unique_b (g : graph) : bool :=
   forallb (fun f1 => forallb (fun f2 => f_detached f1 || f_detached f2 || negb (str_eqb (f_label f1) (f_label f2))
                                         || (f_key f1 =? f_key f2)) (g_files g)) (g_files g).
-(* an output (a file with an edge from a step) is created by its producer and is not in a static state *)
+(* an attached output (a file with an edge from a step) is created by its producer and is not in a static state *)
 Definition outinv_b (g : graph) : bool :=
   forallb (fun d => match find_step g (d_src d), find_file g (d_snk d) with
-                    | Some _, Some f => ocreator_is_key (f_creator f) (d_src d)
-                                        && negb (mem_N (f_state f) static_file_states)
+                    | Some _, Some f => f_detached f
+                                        || (ocreator_is_key (f_creator f) (d_src d)
+                                            && negb (mem_N (f_state f) static_file_states))
                     | _, _ => true
                     end) (g_deps g).
 
